@@ -328,6 +328,9 @@ func TestVerifC43(t *testing.T) {
 
 	e.corpusForms()
 
+	// row requests inside client transactions; overlapping grants (zz_verif_c43h_test.go)
+	e.sectionTO()
+
 	e.db = true
 	e.corpus()
 	e.corpusForms()
